@@ -1,5 +1,6 @@
 import RbV.Ref.Smem
 import RbV.Model.FMDExt
+import RbV.Model.FMDRev
 /-!
 # C06 — FMD-index: SMEMs on both strands, `all_smems`, bi-interval extension
 
@@ -154,6 +155,34 @@ theorem backward_ext_forward_partial (t sa : List Nat) (a : Nat) (P : List Nat) 
       ((FMDModel.backwardExt (LF.lessRef (LF.bwtOf t sa)) (LF.occRef (LF.bwtOf t sa)) iv a).lower +
         (FMDModel.backwardExt (LF.lessRef (LF.bwtOf t sa)) (LF.occRef (LF.bwtOf t sa)) iv a).size) :=
   FMDModel.backwardExt_forward t sa _ _ a P iv ha (LF.lfStep_of_sorted hs) hiv hne
+
+/-- reverse-strand half of `backward_ext`, **reduced to strand symmetry** (partial): on an array passing
+`LF.sortedAllB`, if the reverse interval of `iv` holds exactly the rows of the sentinel-free `Q` (= `revcomp P`),
+every such row is followed by a symbol of `$ACGTNacgtn`, and for every symbol `b` of the loop's order string the
+size the loop computes for `b` (rows of `P`'s interval with BWT symbol `b`) equals the number of rows of
+`Q·complement(b)` — strand symmetry of the indexed text, a property of the construction `s $ revcomp(s) $`, not of
+the algorithm — then the new `[lower_rev, lower_rev+size)` are exactly the rows of `Q·complement(a) = revcomp(a·P)`.
+Ingredients proved on the way (`RbV/Model/FMDRev.lean`): rows of `Q` are ordered by the symbol after `Q`
+(`next_mono`), the block lemma for monotone keys (`mono_block`), the loop returns `lower_rev + Σ_{b before a} size_b`
+(`extLoop_fst`), and `v < complement a ⇔ v = complement b for some b before a` on the order string (`lt_iff_before`).
+Missing for the full statement: deriving the three hypotheses `hin`, `halpha`, `hsym` from `t = fmdText seqs`. -/
+theorem backward_ext_reverse_partial (t sa : List Nat) (less : Nat → Nat) (occ : Nat → Nat → Nat) (a : Nat)
+    (Q : List Nat) (iv : FMDModel.Bi) (ha : a ∈ FMDModel.order)
+    (hchk : LF.sortedAllB t sa = true)
+    (hQ : ∀ q ∈ Q, t.getD (t.length - 1) 0 ≠ q)
+    (hiv : BSModel.IvOf t sa Q iv.lowerRev (iv.lowerRev + iv.size))
+    (hin : ∀ r, iv.lowerRev ≤ r → r < iv.lowerRev + iv.size → sa.getD r 0 + Q.length < t.length)
+    (halpha : ∀ r, iv.lowerRev ≤ r → r < iv.lowerRev + iv.size →
+      t.getD (sa.getD r 0 + Q.length) 0 ∈ FMDModel.compOrder)
+    (hsym : ∀ b ∈ FMDModel.order, FMDModel.cntOf occ iv b =
+      (List.range iv.size).countP (fun i => t.getD (sa.getD (iv.lowerRev + i) 0 + Q.length) 0 == dnaCompl b)) :
+    BSModel.IvOf t sa (Q ++ [dnaCompl a]) (FMDModel.backwardExt less occ iv a).lowerRev
+      ((FMDModel.backwardExt less occ iv a).lowerRev + (FMDModel.backwardExt less occ iv a).size) :=
+  FMDModel.backwardExt_reverse t sa less occ a Q iv ha hchk hQ hiv hin halpha hsym
+
+/-- `revcomp (a :: P) = revcomp P ++ [complement a]` — the string whose rows the reverse interval has to hold -/
+theorem revcomp_cons (a : Nat) (P : List Nat) : revcomp (a :: P) = revcomp P ++ [dnaCompl a] := by
+  simp [revcomp]
 
 section model_examples
 -- T = ATTC$GAAT$, the doc test: backward_ext / forward_ext of the empty interval by `T` = init_interval_with(T)
